@@ -36,7 +36,11 @@ def expected_read(body, reads):
 
 
 def rand_reads(rng, size):
-    k = rng.below(7)
+    k = rng.below(8)
+    if k == 7:
+        # vectored reads: several slices that each fit in what is left but together exceed it
+        n = max(1, size // 3 + 1)
+        return [(None, "%d*3" % n)]
     if k == 0:
         return [(None, rng.choice(BUFS))]
     if k == 1:
@@ -61,6 +65,7 @@ def build(rng, i, transport="u"):
              body=body, chunks=random_chunks(rng, size) if fr in ("chunked", "both") else None, chunk_style=rng.below(4))
     if fr == "both":
         r.te_first = rng.chance(1, 2)          # either order of the two framing headers
+    if fr in ("both", "chunked"):
         r.te_value = rng.choice(["chunked", "chunked", "Chunked", "CHUNKED"])
     if fr == "chunked" and rng.chance(1, 4):
         r.headers.append(("Content-Length", str(rng.choice([0, 3, size + 5]))))   # TE wins over any Content-Length
@@ -92,15 +97,24 @@ def build(rng, i, transport="u"):
     wl.append("N")
     extra = "wu=%s wb=%s wre=%s wl=%s ws=200,200 we=closed fr=%s" % (j(wu), j(wb), j(wre), j(wl), fr)
     return cv_line(stream, acts, transport=transport, extra=extra), {"framing": fr, "size": size, "reads": len(reads),
-                                                                      "buf": reads[0][1], "end": end}
+                                                                      "buf": str(reads[0][1]), "end": end}
 
 
 def build_upgrade(rng, i):
     tag = "up%d" % i
     rest = body_bytes(tag, rng.choice([0, 5, 3000])) + b"GET /not-a-request HTTP/1.1\r\n\r\n"
     r = AReq(method="GET", target="/" + tag, version="1.1", headers=[("Host", "h"), ("Upgrade", "x")], framing="upgrade", body=rest)
+    # an upgrade request keeps ALL remaining bytes verbatim, whatever framing headers it also carries
+    k = rng.below(4)
+    wl = "N"
+    if k == 1:
+        cl = rng.choice([0, 3, 5000])
+        r.headers.append(("Content-Length", str(cl)))
+        wl = str(cl)               # the declared length is reported when there is one
+    elif k == 2:
+        r.headers.append(("Transfer-Encoding", "chunked"))
     reads = [(None, rng.choice(BUFS))]
-    extra = "wu=%s wb=%s wre=eof wl=N we=closed fr=upgrade" % (hx(r.target), hx(rest))
+    extra = "wu=%s wb=%s wre=eof wl=%s we=closed fr=upgrade" % (hx(r.target), hx(rest), wl)
     return cv_line(r.render(), [action_str(reads, respond_str(200, b"ok", True))], extra=extra), {"framing": "upgrade", "size": len(rest)}
 
 
@@ -108,7 +122,7 @@ def gen(tier, rng):
     n = 1500 if tier == "quick" else 25000
     for i in range(n):
         yield build(rng, i)
-    for i in range(n, n + 40):
+    for i in range(n, n + 60):
         yield build_upgrade(rng, i)
     for i in range(n + 40, n + 70):
         yield build(rng, i, transport="t")
